@@ -376,6 +376,20 @@ class Violation(dict):
     pass
 
 
+def _apply_steps_model(m: MG, steps: list) -> MG:
+    N, D, B = set(m.N), set(m.D), set(m.B)
+    for s in steps:
+        if s[0] == "n":
+            N.add(s[1])
+        elif s[0] == "d":
+            D.add((s[1], s[2]))
+            N.update(s[1:3])
+        else:
+            B.add(frozenset(s[1:3]))
+            N.update(s[1:3])
+    return MG(frozenset(N), frozenset(D), frozenset(B))
+
+
 class CaseRun:
     """Executes one case (all populations)."""
 
@@ -409,6 +423,7 @@ class CaseRun:
         cur = [world.world_model(g) for g in case["graphs"]]
         self.M0 = list(cur)
         self.exp: dict[tuple, Any] = {}
+        self.res_after: dict[tuple, MG] = {}  # (round, result key) -> model of that returned graph after its owner edited it
         prev_models: dict[tuple, MG] = {}
         for r, rnd in enumerate(case["rounds"]):
             self.M.append(list(cur))
@@ -450,22 +465,20 @@ class CaseRun:
                         own[k] = rm
                         new_prev[key] = rm
             prev_models.update(new_prev)
+            # the owner of a returned graph may go on editing it (it is a graph like any other)
+            for rk, steps in rnd.get("evolve_results", []):
+                rk = tuple(rk)
+                m = prev_models.get(rk)
+                if m is None:
+                    continue
+                m2 = _apply_steps_model(m, steps)
+                prev_models[rk] = m2
+                self.res_after[(r, rk)] = m2
             # evolve after the round
             for gi, steps in rnd.get("evolve", []):
                 if gi >= len(cur):
                     continue
-                m = cur[gi]
-                N, D, B = set(m.N), set(m.D), set(m.B)
-                for s in steps:
-                    if s[0] == "n":
-                        N.add(s[1])
-                    elif s[0] == "d":
-                        D.add((s[1], s[2]))
-                        N.update(s[1:3])
-                    else:
-                        B.add(frozenset(s[1:3]))
-                        N.update(s[1:3])
-                cur[gi] = MG(frozenset(N), frozenset(D), frozenset(B))
+                cur[gi] = _apply_steps_model(cur[gi], steps)
         self.M.append(list(cur))
 
     # ------------------------------------------------------------------ helpers
@@ -502,6 +515,7 @@ class CaseRun:
     def run_pop(self, pop: dict, base: dict[tuple, Any] | None) -> dict[tuple, Any]:
         case = self.case
         pname = pop["name"]
+        self.res_now: dict[tuple, Any] = {}  # canonical value a returned graph must have now (after evolve_results)
         graphs = [world.build_graph(h) for h in case["histories"]]
         for h in case["histories"]:
             f = self.stats["faults"]
@@ -653,6 +667,24 @@ class CaseRun:
             ]
             # ---- O4a: results of earlier rounds unaffected by anything since (incl. evolve)
             self.check_old_results(pname, values, upto_round=r)
+            # ---- the owner of a returned graph edits it (quiescent); nobody else may notice
+            for rk, steps in rnd.get("evolve_results", []):
+                rk = tuple(rk)
+                val = values.get(rk)
+                m2 = self.res_after.get((r, rk))
+                if val is None or m2 is None:
+                    continue
+                try:
+                    world.apply_steps(val, steps)
+                except Exception as e:  # noqa: BLE001 - e.g. a frozen networkx view of the receiver
+                    self.viol("O4", self._opname(rk), f"result-not-mutable:{type(e).__name__}", pname, key=list(rk))
+                    values.pop(rk, None)
+                    continue
+                self.res_now[rk] = m2.canonical()
+                self.stats["faults"]["evolve"] += 1
+                self._probe("evolve-of-returned-graph")
+                audit(f"after editing returned graph {list(rk)}")
+                self.check_old_results(pname, values, upto_round=r)
             # ---- evolve (quiescent)
             if r < nrounds - 1 or rnd.get("evolve"):
                 for gi, steps in rnd.get("evolve", []):
@@ -912,10 +944,11 @@ class CaseRun:
             if e is None or e[0] != "graph":
                 continue
             got = graph_canonical(val)
-            if got != e[1]:
+            want = self.res_now.get(key, e[1])
+            if got != want:
                 self.viol(
                     "O4", self.case["rounds"][key[0]]["scripts"][key[1]][key[2]]["op"], "returned-graph-changed-later",
-                    pname, key=list(key), after_round=upto_round, got=got, expected=e[1],
+                    pname, key=list(key), after_round=upto_round, got=got, expected=want,
                 )
                 values.pop(key)
 
@@ -941,7 +974,7 @@ class CaseRun:
                 e = self.exp.get(other)
                 if e is None:
                     continue
-                if graph_canonical(values[other]) != e[1]:
+                if graph_canonical(values[other]) != self.res_now.get(other, e[1]):
                     self.viol("O4", self._opname(key), "result-aliases-other-result", pname, key=list(key), other=list(other))
                     break
 
